@@ -28,6 +28,8 @@ def jobs(tier):
     js = [Job("A2 J1", "realtime_timing", dict(nev_a=2, nev_b=0, njobs=1, max_mc=2, window_ms=w, horizon=0.3), **big),
           Job("A1 B1 J1", "realtime_timing", dict(nev_a=1, nev_b=1, njobs=1, max_mc=2, window_ms=w, horizon=0.3),
               **big),
+          Job("A3 (three events of one source)", "realtime_timing",
+              dict(nev_a=3, nev_b=0, njobs=0, max_mc=1, window_ms=w, horizon=0.3, idle=False), **big),
           Job("A2 only, no idle handler", "realtime_timing", dict(nev_a=2, nev_b=0, njobs=0, max_mc=1, idle=False),
               validate_every=50, sample_every=100)]
     if tier == "thorough":
